@@ -350,7 +350,9 @@ def main():
         print(ln)
 
     wall = time.time() - t0
-    obligations = fn_total + kani_checks
+    n_known = sum(1 for v in violations if v.get('known_finding'))
+    # obligations covered by a listed known finding are reported separately, not as discharged
+    obligations = fn_total + kani_checks - n_known
     discharged = fn_ok + kani_ok
     level = cfg['level']
     ev = {
@@ -369,6 +371,7 @@ def main():
                      'checks': kani_checks, 'checks_passed': kani_ok, 'cbmc_time_s': round(kani_time, 1),
                      'bounded': cfg.get('kani_bounds', {})},
             'census': census,
+            'undischarged_known_findings': sorted(set(v['known_finding'] + ': ' + v['obligation'] for v in violations if v.get('known_finding'))),
             'functions_under_contract': sorted(set(contracted)),
             'samples': samples or [{'note': 'no obligation discharged'}],
             'evaluations': max(obligations, 1),
@@ -435,6 +438,13 @@ def write_replay(pid, reported, repo, verus_results):
     for v in reported:
         o = {k: v.get(k) for k in ('obligation', 'backend', 'message', 'clause', 'function', 'harness',
                                    'failed_checks', 'concrete_vals', 'playback_test')}
+        if v['backend'] == 'kani' and not v.get('playback_test'):
+            # second Kani pass (concrete playback) only for violations that are actually reported
+            r2 = kanirun.playback_vals(repo, v['harness'], tag='pb-' + pid)
+            v['playback_test'] = r2.get('playback_test')
+            v['concrete_vals'] = r2.get('concrete_vals')
+            o['playback_test'] = v['playback_test']
+            o['concrete_vals'] = v['concrete_vals']
         if v['backend'] == 'kani' and v.get('playback_test'):
             ok, tail = kanirun.replay(repo, v['harness'], v['playback_test'], tag='replay-' + pid)
             o['replayed_on_real_code'] = ok
